@@ -23,6 +23,10 @@ pub enum Op {
         rebind: bool,
         #[serde(default)]
         take: Option<usize>,
+        /// the shim answers this execution with an error of this kind instead of OK (what the
+        /// shim replies must not change what is bound or pending for later executions)
+        #[serde(default)]
+        reply_err: Option<u16>,
     },
     /// COM_STMT_SEND_LONG_DATA for (stmt, param)
     Long { stmt: usize, param: u16, data: Vec<u8> },
@@ -71,9 +75,12 @@ pub fn build_history(case: &Case) -> (Conversation, Vec<(u32, Vec<(u8, Inner, Op
                 cmds.push(Cmd::LongData { id: case.stmts[*stmt].0, param: *param, data: Blob::Lit(data.clone()) });
                 pending.entry((*stmt, *param)).or_default().extend_from_slice(data);
             }
-            Op::Exec { stmt, params, rebind, take } => {
+            Op::Exec { stmt, params, rebind, take, reply_err } => {
                 cmds.push(Cmd::Execute { id: case.stmts[*stmt].0, params: params.clone(), send_types: *rebind, flags: 0, iterations: 1 });
-                actions.push(Action::Result(Program::completed(0, 0)));
+                actions.push(Action::Result(match reply_err {
+                    Some(kind) => Program { steps: vec![Step::Error { kind: *kind, msg: b"the statement failed".to_vec() }] },
+                    None => Program::completed(0, 0),
+                }));
                 takes.push(*take);
                 let n = case.stmts[*stmt].1;
                 let seen = params
@@ -167,7 +174,7 @@ impl Prop for C16 {
         "C16"
     }
     fn rule(&self) -> String {
-        "cases = 2-4 prepared statements with 1-12 parameters and a history of 2-30 executions; each execution picks a statement and either rebinds (new-params-bound = 1 with freshly generated types, or with the bound types changed only in some signedness flags or in a single position) or reuses (flag = 0, no type block; the first execution after a prepare always binds, as the protocol requires); values are encoded per the types in force in the reference model types[stmt]. Oracle: the shim must see exactly the model's (type code, ValueInner) lists for every execution.  In 1 of 5 executions the shim pulls only a prefix of the parameters (possibly none) from the iterator; what that execution bound must persist all the same. One execution in six has one of its parameters streamed beforehand with COM_STMT_SEND_LONG_DATA (types must survive an execution that consumed long data). One history in ten has the shim hand out an id that is still open for a new statement (same parameter count) in mid-history, after which the next execution binds afresh; one in eight ends with such a new statement being executed *without* binding types (parameters encoded per the old statement's types), which must never reach the shim. Non-trivial = some reuse happens after a rebind of a *different* statement (so a single global type table would be caught), or a reuse follows a rebind to different types of the same statement.".into()
+        "cases = 2-4 prepared statements with 1-12 parameters and a history of 2-30 executions; each execution picks a statement and either rebinds (new-params-bound = 1 with freshly generated types, or with the bound types changed only in some signedness flags or in a single position) or reuses (flag = 0, no type block; the first execution after a prepare always binds, as the protocol requires); values are encoded per the types in force in the reference model types[stmt]. One execution in six is answered with an error instead of OK; what is bound persists all the same. Oracle: the shim must see exactly the model's (type code, ValueInner) lists for every execution.  In 1 of 5 executions the shim pulls only a prefix of the parameters (possibly none) from the iterator; what that execution bound must persist all the same. One execution in six has one of its parameters streamed beforehand with COM_STMT_SEND_LONG_DATA (types must survive an execution that consumed long data). One history in ten has the shim hand out an id that is still open for a new statement (same parameter count) in mid-history, after which the next execution binds afresh; one in eight ends with such a new statement being executed *without* binding types (parameters encoded per the old statement's types), which must never reach the shim. Non-trivial = some reuse happens after a rebind of a *different* statement (so a single global type table would be caught), or a reuse follows a rebind to different types of the same statement.".into()
     }
     fn assumptions(&self) -> Vec<String> {
         vec!["the recording shim iterates all parameters of every execution, as every caller in the repository does (the library parses the type block lazily inside the iterator)".into()]
@@ -237,7 +244,8 @@ impl Prop for C16 {
             }
             // a shim may look at only some of the parameters (or none): what is bound must persist
             let take = if g.chance(1, 5) { Some(g.usize_in(0, params.len())) } else { None };
-            ops.push(Op::Exec { stmt: s, params, rebind, take });
+            let reply_err = if g.chance(1, 6) { Some(*g.pick(&[1243u16, 1213, 1205, 1064, 1105, 1317, 1062, 1146])) } else { None };
+            ops.push(Op::Exec { stmt: s, params, rebind, take, reply_err });
             if g.chance(1, 8) {
                 ops.push(Op::Ping);
             }
